@@ -106,6 +106,16 @@ impl Scheduler for Pb {
         if !free_switch && choice > 0 {
             self.preempt += 1;
         }
+        if self.fixed.is_some() && std::env::var("VSCHED_DEBUG").is_ok() {
+            eprintln!(
+                "  sched step={} current={:?} yielding={yielding} runnable={:?} order={:?} choice={choice} preempt={}",
+                self.step,
+                current.map(usize::from),
+                runnable.iter().map(|t| usize::from(t.id())).collect::<Vec<_>>(),
+                order.iter().map(|t| usize::from(*t)).collect::<Vec<_>>(),
+                self.preempt
+            );
+        }
         self.step += 1;
         let mut sh = self.shared.lock().unwrap();
         sh.current.push(choice);
